@@ -24,11 +24,12 @@ use std::cmp;
 use std::collections::{HashSet, VecDeque};
 use std::env;
 use std::fs::File;
-use std::io::{self, BufReader};
+use std::io::{self, BufReader, Read};
 use std::mem;
 use std::os::unix::io::RawFd;
 use std::path::{Path, PathBuf};
 use std::process;
+use std::sync::mpsc;
 use std::thread;
 use std::time::{Duration, Instant};
 
@@ -117,6 +118,61 @@ pub(crate) fn run() -> Result<(), Error> {
     Ok(())
 }
 
+/// Standard input, drained by a thread of its own.
+///
+/// The top-level redo writes its own log lines into the pipe read here, and it is
+/// also the process that must record the job whose log may be followed for a long
+/// time in the meantime.  If nobody read the pipe during that time, redo would
+/// block in write(2) as soon as the pipe is full and never get to record that
+/// job: a deadlock although every script succeeds.
+struct DrainedStdin {
+    chunks: mpsc::Receiver<Vec<u8>>,
+    cur: io::Cursor<Vec<u8>>,
+}
+
+impl DrainedStdin {
+    fn new() -> DrainedStdin {
+        let (tx, chunks) = mpsc::channel();
+        thread::spawn(move || {
+            let stdin = io::stdin();
+            let mut stdin = stdin.lock();
+            let mut buf = [0u8; 65536];
+            loop {
+                match stdin.read(&mut buf) {
+                    Ok(0) => break,
+                    Ok(n) => {
+                        if tx.send(buf[..n].to_vec()).is_err() {
+                            break;
+                        }
+                    }
+                    Err(e) if e.kind() == io::ErrorKind::Interrupted => {}
+                    Err(_) => break,
+                }
+            }
+        });
+        DrainedStdin {
+            chunks,
+            cur: io::Cursor::new(Vec::new()),
+        }
+    }
+}
+
+impl Read for DrainedStdin {
+    fn read(&mut self, out: &mut [u8]) -> io::Result<usize> {
+        loop {
+            let n = self.cur.read(out)?;
+            if n > 0 || out.is_empty() {
+                return Ok(n);
+            }
+            match self.chunks.recv() {
+                Ok(chunk) => self.cur = io::Cursor::new(chunk),
+                // The reading thread is done: end of input.
+                Err(_) => return Ok(0),
+            }
+        }
+    }
+}
+
 struct LogState {
     already: HashSet<String>,
     depth: Vec<String>,
@@ -164,10 +220,9 @@ impl LogState {
         }
         self.fix_depth();
         let mydir = t.parent().unwrap_or_default();
-        let stdin = io::stdin();
         let (mut f, mut info): (Option<Box<dyn BufRead>>, Option<(i64, Lock, PathBuf)>) =
             if t.as_str() == "-" {
-                (Some(Box::new(stdin.lock())), None)
+                (Some(Box::new(BufReader::new(DrainedStdin::new()))), None)
             } else {
                 let fid = {
                     let mut ptx = ProcessTransaction::new(ps, TransactionBehavior::Deferred)?;
